@@ -43,6 +43,7 @@ func simpleMerkle(items [][]byte) []byte {
 }
 
 func (c *Ctx) commitCase(sc sqCase) {
+	defer c.recoverCase()
 	txs := rawList(sc.txs)
 	b := safeBuild(txs, sc.max, sc.thr)
 	if b.err != nil {
@@ -271,7 +272,11 @@ func (c *Ctx) commitTwins() {
 		add(func(b *blobSpec) { b.data[len(b.data)-1] ^= 0x80 })
 		add(func(b *blobSpec) { b.data[0] ^= 0x01 })
 		add(func(b *blobSpec) { b.data = append(b.data, 0) })
-		add(func(b *blobSpec) { b.ver = 0; b.signer = nil; b.data = append(append([]byte(nil), base.signer...), base.data...) })
+		add(func(b *blobSpec) {
+			b.ver = 0
+			b.signer = nil
+			b.data = append(append([]byte(nil), base.signer...), base.data...)
+		})
 		twins = append(twins, base)
 		for _, thr := range []int{64, 1, 2} {
 			for ti, t := range twins {
